@@ -1,0 +1,12 @@
+//go:build verif
+
+package abci
+
+import "github.com/oasisprotocol/oasis-core/go/consensus/cometbft/api"
+
+// VerifNewMessageDispatcher returns a new instance of the multiplexer's message dispatcher.
+//
+// Verification hook (property C10): exports a private constructor, adds no behaviour.
+func VerifNewMessageDispatcher() api.MessageDispatcher {
+	return newMessageDispatcher()
+}
